@@ -56,6 +56,10 @@ PROPS = {
         ]
     },
     "C08": {
+        "properties": [
+            "C08",
+            "C08_v1"
+        ],
         "domains": [
             {
                 "name": "c08",
@@ -63,15 +67,25 @@ PROPS = {
                 "n_quick": 4,
                 "n_thorough": 40,
                 "model": True
+            },
+            {
+                "name": "c08v1",
+                "run_vo": "Model/RunKeystoreWriteV1.vo",
+                "n_quick": 2,
+                "n_thorough": 24,
+                "model": True
             }
         ],
         "trusted": [
+            "v1: key file names are numbers (kind + 8*client), file content is (ordinal of the key material, all bytes present), directories are not represented: abstraction done by harness/vhv1/rig.go (Abstract/classify) from the bytes in the in-memory storage; the ordinal of what a reader returns is looked up from the plaintext of every content handed to WriteFile",
+            "v1: fault-injecting wrapper vhv1.FaultFS around vh.MemFS (in-memory filesystem.Storage; TempFile names '<pattern><digits>' as ioutil.TempFile and the Redis storage do); FileStorage/Redis behaviour under real crashes is the stated hypothesis, not exercised",
             "file names are structured values and a key ring file is (signature validity bit, [(seqnum, state, key ordinal)], current): ASN.1/signature bytes, path strings (C07) and key encryption (C06) are abstracted by the harness (vh/ksw.go KswAbstract)",
             "fault-injecting wrapper vh.KswBackend around the real backend.InMemory; DirectoryBackend/flock/fsync behaviour is the stated hypothesis, not exercised"
         ],
         "assumptions": [
             "each back-end call is atomic; Rename is atomic and replaces its target; a completed Put (fsync) is durable; a torn write can only leave a strict prefix in the NEW file being created",
-            "a key ring file holding a strict prefix of a signed ring does not verify (validity bit False)"
+            "a key ring file holding a strict prefix of a signed ring does not verify (validity bit False)",
+            "v1: every filesystem.Storage call is atomic except WriteFile and Copy, which can leave a strict prefix in the file they create (TempFile can leave its empty file); Link is an atomic hard link or unsupported; Rename is atomic and replaces its target; a key file holding a strict prefix does not decrypt; one fault per operation; the clock gives a new history name and TempFile an unused name (the theorems hold for every choice, the harness only runs fresh ones)"
         ]
     },
     "C19": {
